@@ -29,6 +29,9 @@ def children(n):
     """ordered (label, child) of a node, read from the storage dict / member list directly (no memoised method)"""
     if is_lazy(n):
         return [(f"#{i}", m) for i, m in enumerate(n.tensordicts)]
+    pt = n.__dict__.get("_param_td", None) if hasattr(n, "__dict__") else None
+    if pt is not None:
+        return children(pt)     # TensorDictParams wraps a TensorDict
     d = getattr(n, "_tensordict", None)
     if isinstance(d, dict):
         return list(d.items())
@@ -125,6 +128,9 @@ class Subject:
                         m.lock_()
             if not is_lazy(self.td):
                 self.td.lock_()
+        elif how == "params":
+            from tensordict.nn import TensorDictParams
+            self.td = TensorDictParams(self.td, lock=True)
         elif how == "share":
             self.td.share_memory_()
         elif how == "none":
